@@ -29,7 +29,7 @@ ASSUMPTIONS = ["id(obj) is unique among live objects (language guarantee)"]
 TRUSTED = ["/verif/sa path enumerator, resolver and call graph"]
 
 
-def rule_allproviders(ctx: Ctx):
+def rule_allproviders(ctx: Ctx, rule: str = "C12.allproviders"):
     rep = ctx.rep
     fn = ctx.fn("Listeners.search_name")
     name = fn.params[1]
@@ -38,7 +38,7 @@ def rule_allproviders(ctx: Ctx):
         evs = p.events
         its = [e for e in evs if e.kind == "iter" and e.x.get("loop") == "for"]
         if its:
-            rep.check(show(its[0].term) == "self.items", "C12.allproviders", its[0].loc(), "the name search ranges over all providers", fn.key, norm_stmt(its[0].node))
+            rep.check(show(its[0].term) == "self.items", rule, its[0].loc(), "the name search ranges over all providers", fn.key, norm_stmt(its[0].node))
         has = 0
         for i, it in enumerate(its):
             end = its[i + 1].idx if i + 1 < len(its) else len(evs)
@@ -50,32 +50,32 @@ def rule_allproviders(ctx: Ctx):
             if member and member[0].x["taken"]:
                 has += 1
                 n += 1
-                rep.check(len(ys) == 1, "C12.allproviders", it.loc(), "every provider that has the name yields one builder (no early exit after the first)",
+                rep.check(len(ys) == 1, rule, it.loc(), "every provider that has the name yields one builder (no early exit after the first)",
                           fn.key, f"{len(ys)} yields for a provider that has the name")
                 if ys:
                     y = expand1(ys[0].term, evs)
                     key_ok = isinstance(y, ast.Tuple) and xshow(y.elts[0], evs) == f"{xshow(it.x['elem'], evs)}.build_key({name})"
-                    rep.check(key_ok, "C12.allproviders", ys[0].loc(), "the builder is keyed by (name, provider)", fn.key, norm_stmt(ys[0].node))
+                    rep.check(key_ok, rule, ys[0].loc(), "the builder is keyed by (name, provider)", fn.key, norm_stmt(ys[0].node))
             elif member:
-                rep.check(not ys, "C12.allproviders", it.loc(), "a provider without the name yields nothing", fn.key, "yield for a provider lacking the name")
+                rep.check(not ys, rule, it.loc(), "a provider without the name yields nothing", fn.key, "yield for a provider lacking the name")
         ys_all = [y for y in evs if y.kind == "yield"]
         if ys_all:
             exhausted_after = any(e.kind == "exhaust" and e.idx > ys_all[-1].idx for e in evs)
-            rep.check(exhausted_after, "C12.allproviders", ys_all[-1].loc(),
+            rep.check(exhausted_after, rule, ys_all[-1].loc(),
                       "after yielding one provider's builder the search goes on with the remaining providers", fn.key,
                       "the search ends right after a yield (later providers are never consulted)")
         if len(its) == 2 and has == 2:
             ys = [y for y in evs if y.kind == "yield"]
-            rep.check(len(ys) == 2 and p.kind != "return" or len(ys) == 2, "C12.allproviders", fn.loc(), "two providers with the name => two builders", fn.key,
+            rep.check(len(ys) == 2 and p.kind != "return" or len(ys) == 2, rule, fn.loc(), "two providers with the name => two builders", fn.key,
                       f"{len(ys)} builders for two providers")
-    rep.floor("C12.allproviders", "provider iterations that have the name", n, 3)
+    rep.floor(rule, "provider iterations that have the name", n, 3)
     tk = ctx.fn("Listeners._take_callback")
     n_many = 0
     for p in ctx.paths(tk, inline=None, exc_edges="none", unroll=2, loops_for_comps=True):
         evs = p.events
         its = [e for e in evs if e.kind == "iter" and e.x.get("loop") == "for" and xshow(e.term, evs).startswith("self.search_name(")]
         apps = [e for e in p.calls() if isinstance(e.term.func, ast.Attribute) and e.term.func.attr == "append"]
-        rep.check(len(apps) == len(its), "C12.allproviders", tk.loc(), "every provider's callable of a guard name is collected", tk.key,
+        rep.check(len(apps) == len(its), rule, tk.loc(), "every provider's callable of a guard name is collected", tk.key,
                   f"{len(apps)} collected for {len(its)} providers")
         if p.kind != "return":
             continue
@@ -93,12 +93,12 @@ def rule_allproviders(ctx: Ctx):
 
             fo = fold_of(p.value, evs)
             ok = fo is not None and fo[0] == "custom_and" and fo[1] == lst and (fo[2] == -1 or fo[2] >= 2)
-            rep.check(ok, "C12.allproviders", tk.loc(), "a guard name provided by several objects must hold on all of them (conjunction)", tk.key,
+            rep.check(ok, rule, tk.loc(), "a guard name provided by several objects must hold on all of them (conjunction)", tk.key,
                       f"return {show(v)}")
         elif len(its) == 0:
-            rep.check(show(v) == "allways_true" and any(show(e.term.func) == tk.params[2] for e in p.calls()), "C12.allproviders", tk.loc(),
+            rep.check(show(v) == "allways_true" and any(show(e.term.func) == tk.params[2] for e in p.calls()), rule, tk.loc(),
                       "a name nobody provides is reported (and never silently true: nothing is registered for it, see C08.when)", tk.key, f"return {show(v)}")
-    rep.floor("C12.allproviders", "multi-provider paths of _take_callback", n_many, 1)
+    rep.floor(rule, "multi-provider paths of _take_callback", n_many, 1)
     rs = ctx.fn("Listeners.resolve")
     n_add = 0
     for p in ctx.paths(rs, inline=None, exc_edges="none", unroll=2):
@@ -110,11 +110,11 @@ def rule_allproviders(ctx: Ctx):
                 ok = len(inner) >= 2 and xshow(inner[-1].term, evs).startswith("self.build(")
                 recv = xshow(e.term.func.value, evs)
                 ok = ok and recv.startswith("registry[specs.grouper(") and recv.endswith(".group).key]")
-                rep.check(ok, "C12.allproviders", e.loc(), "every builder produced for a spec is added to the executor of that spec's group", rs.key,
+                rep.check(ok, rule, e.loc(), "every builder produced for a spec is added to the executor of that spec's group", rs.key,
                           norm_stmt(e.node), executor=recv)
         brk = [n_ for n_ in own_nodes(rs.node) if isinstance(n_, (ast.Break, ast.Return))]
-        rep.check(not brk, "C12.allproviders", rs.loc(), "resolve() never stops early", rs.key, f"{len(brk)} break/return statements")
-    rep.floor("C12.allproviders", "executor.add sites on paths of resolve()", n_add, 2)
+        rep.check(not brk, rule, rs.loc(), "resolve() never stops early", rs.key, f"{len(brk)} break/return statements")
+    rep.floor(rule, "executor.add sites on paths of resolve()", n_add, 2)
 
 
 def rule_filter(ctx: Ctx, rule: str = "C12.allproviders"):
